@@ -795,3 +795,42 @@ def index_comprehension(comp, idx):
         def visit_Name(self, x):
             return copy.deepcopy(sub[x.id]) if x.id in sub and isinstance(x.ctx, ast.Load) else x
     return S().visit(copy.deepcopy(comp.elt))
+
+
+def instantiate(a, env, max_inst=4096):
+    """Concrete instances of an IR record whose loops are kept symbolic: the loop iterables are evaluated by the checker's
+    interpreter under the Python-level valuation `env` (innermost last) and every combination of loop values is yielded as the
+    valuation {**env, loop variables}.  Records without loops yield `env` once.  Raises NotConcrete when an iterable is not a
+    compile-time constant under `env`."""
+    from . import pyconst
+
+    def rec(k, cur):
+        if k == len(a.loops):
+            yield dict(cur)
+            return
+        var, it = a.loops[k]
+        try:
+            vals = pyconst.Interp(dict(cur)).ev(ast.parse(it, mode="eval").body)
+            vals = list(vals)
+        except Exception as ex:     # noqa
+            raise NotConcrete(f"loop `{var} in {it}`: {ex}")
+        try:
+            tgt = ast.parse(var, mode="eval").body
+        except SyntaxError:
+            raise NotConcrete(var)
+        for v in vals:
+            nxt = dict(cur)
+            if isinstance(tgt, ast.Name):
+                nxt[tgt.id] = v
+            elif isinstance(tgt, ast.Tuple) and isinstance(v, (tuple, list)) and len(v) == len(tgt.elts) and all(isinstance(e, ast.Name) for e in tgt.elts):
+                for e, x in zip(tgt.elts, v):
+                    nxt[e.id] = x
+            else:
+                raise NotConcrete(var)
+            yield from rec(k + 1, nxt)
+    n = 0
+    for inst in rec(0, env):
+        n += 1
+        if n > max_inst:
+            raise NotConcrete("too many instances")
+        yield inst
